@@ -241,6 +241,9 @@ class Fn(object):
             for s in B.succ:
                 if s is not None:
                     self.blocks[s].preds.append(B.id)
+            # jump statements are terminators, not elements
+            if B.term is not None and self.nodes[B.term]['k'] in ('BreakStmt', 'ContinueStmt', 'GotoStmt'):
+                self.pos.setdefault(B.term, (B.id, len(B.elems)))
         # CXXTryStmt dispatch blocks have no predecessor without EH edges: remember them
         self.try_blocks = [B.id for B in self.blocks.values()
                            if B.term is not None and self.nodes[B.term]['k'] == 'CXXTryStmt']
@@ -282,10 +285,15 @@ class Fn(object):
         c = B.tcond
         if t['k'] == 'BinaryOperator' and t.get('op') in ('&&', '||'):
             return (c, False)  # clang gives the LHS
+        here = set(e['n'] for e in B.elems if 'n' in e)
         while True:
             s = self.strip(c)
             n = self.nodes[s]
             if n['k'] == 'BinaryOperator' and n.get('op') in ('&&', '||'):
+                if s in here:
+                    # confluence form (the operator was not lowered to branches, e.g. under
+                    # ExprWithCleanups): this block tests the value of the whole expression
+                    return (s, False)
                 c = n['ch'][1]
             else:
                 return (s, False)
@@ -359,13 +367,6 @@ class Fn(object):
                 out += self.cond_facts(defs[0][1], polarity, depth + 1)
         return out
 
-    def edge_facts(self, frm, to_label):
-        B = self.blocks[frm]
-        lc = self.leaf_cond(B)
-        if lc is None or lc[1] or to_label not in (True, False):
-            return []
-        return self.cond_facts(lc[0], to_label)
-
     # simple syntactic definitions of a local variable: [(node, value-expr or None)]
     def defs_of_var(self, ref):
         if not hasattr(self, '_defs'):
@@ -402,69 +403,144 @@ class Fn(object):
         return self._defs.get(ref, [])
 
     # ---------------- reachability ----------------
-    def reachable_blocks(self, start=None, cut_edges=(), cut_blocks=(), with_catch=True):
-        """blocks reachable from `start` (default entry) without crossing cut edges
-        {(from,to,label)|(from,to)} or entering cut blocks.  Catch handlers are
-        considered reachable when their try body is (conservative: from the block that
-        precedes the try)."""
-        cut2 = set()
-        cut3 = set()
+    # Confluence blocks: when a logical operator is not lowered to branches (it sits under
+    # ExprWithCleanups), clang joins the short-circuit edge and the RHS block in one block that
+    # tests the value of the whole operator.  Reachability is made path-sensitive exactly there:
+    # a state is (block, tag) with tag 'T'/'F' (value forced by the short-circuit edge taken),
+    # 'R' (arrived after evaluating the RHS) or None.
+    def _confluence(self, bid):
+        if not hasattr(self, '_conf'):
+            self._conf = {}
+            for B in self.blocks.values():
+                lc = self.leaf_cond(B)
+                if lc and not lc[1]:
+                    n = self.nodes[lc[0]]
+                    if n['k'] == 'BinaryOperator' and n.get('op') in ('&&', '||') and any(e.get('n') == lc[0] for e in B.elems):
+                        self._conf[B.id] = lc[0]
+        return self._conf.get(bid)
+
+    def _eval3(self, node, leaf, val):
+        i = self.strip(node)
+        if i == leaf:
+            return val
+        n = self.nodes[i]
+        if n['k'] == 'UnaryOperator' and n.get('op') == '!':
+            v = self._eval3(n['ch'][0], leaf, val)
+            return None if v is None else (not v)
+        if n['k'] == 'BinaryOperator' and n.get('op') in ('&&', '||'):
+            a = self._eval3(n['ch'][0], leaf, val)
+            b = self._eval3(n['ch'][1], leaf, val)
+            if n['op'] == '&&':
+                if a is False or b is False:
+                    return False
+                if a is True and b is True:
+                    return True
+                return None
+            if a is True or b is True:
+                return True
+            if a is False and b is False:
+                return False
+            return None
+        return None
+
+    def _arrival_tag(self, b, s, lab):
+        L = self._confluence(s)
+        if L is None:
+            return None
+        B = self.blocks[b]
+        if B.term is not None and lab in (True, False):
+            t = self.nodes[B.term]
+            if t['k'] == 'BinaryOperator' and t.get('op') in ('&&', '||') and (B.term == L or self.contains(L, B.term)):
+                lc = self.leaf_cond(B)
+                if lc:
+                    v = self._eval3(L, self.strip(lc[0]), lab)
+                    if v is True:
+                        return 'T'
+                    if v is False:
+                        return 'F'
+                    return None
+        return 'R'
+
+    def state_succ(self, b, tag):
+        """[(succ block, label, succ tag)] from state (b, tag)"""
+        out = []
+        for (s, lab) in self.succ_edges(b):
+            if tag == 'T' and lab is False:
+                continue
+            if tag == 'F' and lab is True:
+                continue
+            out.append((s, lab, self._arrival_tag(b, s, lab)))
+        return out
+
+    def edge_facts(self, frm, to_label, tag=None):
+        B = self.blocks[frm]
+        lc = self.leaf_cond(B)
+        if lc is None or lc[1] or to_label not in (True, False):
+            return []
+        facts = self.cond_facts(lc[0], to_label)
+        if tag == 'R' and self._confluence(frm) is not None:
+            n = self.nodes[lc[0]]
+            if (n['op'] == '&&' and to_label is False) or (n['op'] == '||' and to_label is True):
+                facts = facts + self.cond_facts(n['ch'][1], to_label)
+        return facts
+
+    def reachable_states(self, start=None, cut_edges=(), cut_blocks=(), with_catch=True):
+        cut2, cut3, cut4 = set(), set(), set()
         for e in cut_edges:
-            if len(e) == 2:
-                cut2.add(e)
-            else:
-                cut3.add(e)
+            (cut2 if len(e) == 2 else cut3 if len(e) == 3 else cut4).add(e)
         cutb = set(cut_blocks)
         if start is None:
             start = self.entry
         seen = set()
-        stack = [start] if start not in cutb else []
+        seenb = set()
+        stack = [(start, None)] if start not in cutb else []
         tryb = set(self.try_blocks) if with_catch else set()
         while stack:
-            b = stack.pop()
-            if b in seen:
+            st = stack.pop()
+            if st in seen:
                 continue
-            seen.add(b)
-            for (s, lab) in self.succ_edges(b):
-                if (b, s) in cut2 or (b, s, lab) in cut3 or s in cutb:
+            seen.add(st)
+            b, tag = st
+            seenb.add(b)
+            for (s, lab, stag) in self.state_succ(b, tag):
+                if (b, s) in cut2 or (b, s, lab) in cut3 or (b, s, lab, tag) in cut4 or s in cutb:
                     continue
-                if s not in seen:
-                    stack.append(s)
-            if tryb and self._try_entry_reached(b, seen):
-                for t in list(tryb):
-                    if t not in seen and self._try_covers(t, b):
-                        if t not in cutb:
-                            stack.append(t)
+                if (s, stag) not in seen:
+                    stack.append((s, stag))
+            for t in list(tryb):
+                if t not in seenb and t not in cutb and self._try_covers(t, b):
+                    stack.append((t, None))
         return seen
 
+    def reachable_blocks(self, start=None, cut_edges=(), cut_blocks=(), with_catch=True):
+        """blocks reachable from `start` (default entry) without crossing cut edges
+        {(from,to)|(from,to,label)|(from,to,label,tag)} or entering cut blocks.  Catch handlers are
+        considered reachable when a block of their try body is."""
+        return set(b for (b, _) in self.reachable_states(start, cut_edges, cut_blocks, with_catch))
+
     def _try_covers(self, tryblock, b):
-        """is block b lexically inside the try body whose dispatch block is tryblock"""
+        """does block b contain a statement lexically inside the try body whose dispatch block is tryblock"""
         T = self.nodes[self.blocks[tryblock].term]
         body = T['body']
         B = self.blocks[b]
-        cand = None
         for e in B.elems:
-            if 'n' in e:
-                cand = e['n']
-                break
-        if cand is None and B.term is not None:
-            cand = B.term
-        if cand is None:
-            return False
-        return self.contains(body, cand)
-
-    def _try_entry_reached(self, b, seen):
-        return True
+            if 'n' in e and self.contains(body, e['n']):
+                return True
+        if B.term is not None and self.contains(body, B.term):
+            return True
+        return False
 
     def gate_edges(self, pred):
-        """edges (from,to,label) whose implied facts satisfy pred(fn, atom, polarity)"""
+        """edges (from,to,label,tag) whose implied facts satisfy pred(atom, polarity)"""
         out = []
         for B in self.blocks.values():
-            for (s, lab) in self.succ_edges(B.id):
-                for (atom, pol) in self.edge_facts(B.id, lab):
-                    if pred(atom, pol):
-                        out.append((B.id, s, lab))
-                        break
+            tags = [None] if self._confluence(B.id) is None else [None, 'T', 'F', 'R']
+            for tag in tags:
+                for (s, lab, _) in self.state_succ(B.id, tag):
+                    for (atom, pol) in self.edge_facts(B.id, lab, tag):
+                        if pred(atom, pol):
+                            out.append((B.id, s, lab, tag))
+                            break
         return out
 
     def only_through(self, target_node, gates):
@@ -472,10 +548,7 @@ class Fn(object):
         p = self.point_of(target_node)
         if p is None:
             raise AnalysisBroken('node %d of %s has no CFG position' % (target_node, self.id))
-        # complement: edges not in gates
-        allg = set(gates)
-        cut = [(f, t, l) for (f, t, l) in allg]
-        reach = self.reachable_blocks(cut_edges=cut)
+        reach = self.reachable_blocks(cut_edges=list(gates))
         return p[0] not in reach
 
     def abnormal_blocks(self):
